@@ -2,7 +2,7 @@
    of entries: which files become entries, how entries are laid out in index files, how a
    download reassembles and selects them. *)
 From Coq Require Import List String Ascii NArith Bool Arith.
-From DM Require Import Base.Str Gen.Paths Model.PathsParse Model.Meta.
+From DM Require Import Gen.Consts Base.Str Gen.Paths Model.PathsParse Model.Meta.
 Import ListNotations.
 Open Scope list_scope.
 
@@ -69,4 +69,4 @@ Fixpoint download_files (es : list entry) (sel : string -> bool) (acc : list (st
       else download_files t sel acc
   end.
 
-Definition E_default : nat := 1000.
+Definition E_default : nat := defaultBundleEntriesPerFile.   (* Gen/Consts.v, from pkg/core/bundle_pack.go *)
